@@ -32,6 +32,7 @@ ASSUMPTIONS = [
 ]
 FLOORS = {"quick": {"enum_definitions": 150, "field_roundtrips": 8000, "mutation_attempts": 1500},
           "thorough": {"enum_definitions": 8000, "field_roundtrips": 400000, "mutation_attempts": 80000}}
+ANCHORS = ['EnumType.__new__', 'EnumType.__call__', 'Enum.try_value', 'Enum.from_string', 'Enum.__copy__', 'Enum.__setattr__', 'EnumType.__setattr__']
 CONTRACTS = []
 
 DYN = types.ModuleType("vf_dynenums")
